@@ -441,7 +441,13 @@ impl RenderContext {
 
         let header = frame.header();
         // Check if LF frame exists
-        if header.flags.use_lf_frame() && self.lf_frame[header.lf_level as usize] == usize::MAX {
+        // An LF frame of the lowest level (4) has no LF frame below it to use.
+        if header.flags.use_lf_frame()
+            && self
+                .lf_frame
+                .get(header.lf_level as usize)
+                .is_none_or(|&idx| idx == usize::MAX)
+        {
             return Err(Error::UninitializedLfFrame(header.lf_level));
         }
 
@@ -755,7 +761,14 @@ impl RenderContext {
         // when it was loaded; `self.reference` may have been overwritten by later frames.
         let (lf_frame_idx, reference) = match self.frame_deps.get(frame.index()) {
             Some(deps) => (deps.lf, deps.ref_slots),
-            None => (self.lf_frame[header.lf_level as usize], self.reference),
+            None => {
+                let lf = if header.flags.use_lf_frame() {
+                    self.lf_frame[header.lf_level as usize]
+                } else {
+                    usize::MAX
+                };
+                (lf, self.reference)
+            }
         };
         if header.flags.use_lf_frame() {
             self.spawn_renderer(lf_frame_idx);
